@@ -13,7 +13,7 @@ from __future__ import annotations
 import itertools
 from .core import Repo, Report, CLASSES, AnalysisError
 from .ordertype import OrderType
-from .absint import (Interp, Int, Const, NONE, TRUE, FALSE, NodeV, SelfV, TupleV, ListObj, DictObj, SetObj, IterV, AbstractRaise,
+from .absint import (Fork, Interp, Int, Const, NONE, TRUE, FALSE, NodeV, SelfV, TupleV, ListObj, DictObj, SetObj, IterV, AbstractRaise,
                      Unsupported, Opaque, BoundMethod, Builtin, RangeV, run_all_choices)
 from .world_graph import bind_args
 from .query_check import QueryWorld, Shape, SHAPES
@@ -66,6 +66,13 @@ class ConvWorld(QueryWorld):
         self.all_methods = all_methods
         self.ids = [T(k) for k in OFFS]
         self.materialise_timelines(self.ids)
+        # the snapshot ids of the source are the instants at which something is present (an instant that nothing inhabits is no
+        # id: code that walks the ids instead of the integers sees a hole there)
+        keys = sorted({shape.key(*e) for e in shape.edges}, key=str)
+        try:
+            self.ids = [t for t in self.ids if any(self.present(k[0], k[1], t) for k in keys)]
+        except Fork:
+            pass            # presence not seeded up front: keep every instant
         self.node_order = node_order
         self.id_order_asked = []
         self.new_graphs = []
@@ -104,6 +111,17 @@ class ConvWorld(QueryWorld):
             obj.attr_stores[attr] = v
             return
         return super().store_attr(ip, obj, attr, v, node)
+
+    def _result_nodes(self, g):
+        have = list(g.nodes) + [x.role for c in g.calls if _adds(c) for x in c[:2] if isinstance(x, NodeV)]
+        return [NodeV(r) for r in dict.fromkeys(have)]
+
+    def concretise_iter(self, ip, it, node):
+        if isinstance(it, AttrOf) and isinstance(it.obj, RecGraph) and it.attr == "_node":
+            return ListObj(self._result_nodes(it.obj))
+        if isinstance(it, RecGraph):
+            return ListObj(self._result_nodes(it))
+        return super().concretise_iter(ip, it, node)
 
     def store_subscript(self, ip, obj, key, v, node, aug=None):
         if isinstance(obj, AttrOf) and isinstance(obj.obj, RecGraph) and obj.attr == "_node" and isinstance(key, NodeV):
